@@ -18,7 +18,7 @@ def plan(tier, seed):
 
     phases = _plan(tier, seed, U)
     for p in phases:   # the property excludes operator parameters wider than the data dtype
-        p['cases'] = [c for c in p['cases'] if 'widening' not in c['a'] and 'widening' not in str(c.get('b'))]
+        p['cases'] = [dict(c, xf=True) if 'b' in c else c for c in p['cases'] if 'widening' not in c['a'] and 'widening' not in str(c.get('b'))]
     return phases
 
 
